@@ -103,13 +103,13 @@ def _worker(args):
         if time.monotonic() > deadline:
             break
         seed = run_seed(verif_seed, i)
-        faulthandler.dump_traceback_later(300, exit=True)
+        faulthandler.dump_traceback_later(900, exit=True)
         try:
             kind, rep = run_one(prop, seed)
             if check_det and i < N_DETERMINISM:
                 kind2, rep2 = run_one(prop, seed)
-                d1 = rep.event_digest if kind == "ok" else (kind, rep)
-                d2 = rep2.event_digest if kind2 == "ok" else (kind2, rep2)
+                d1 = _det_digest(kind, rep)
+                d2 = _det_digest(kind2, rep2)
                 if d1 != d2:
                     harness.append(f"seed={seed}: NONDETERMINISM same-process {d1} != {d2}")
                 det.append((i, d1 if isinstance(d1, str) else "discard"))
@@ -131,6 +131,18 @@ def _worker(args):
             v = rep.violations[0]
             failures.append((i, seed, v["oracle"], v["locus"], _jsonable(v.get("detail"))))
     return dict(agg=agg, failures=failures, harness=harness, discards=discards, done=done, samples=samples, nontrivial=nontrivial, det=det)
+
+
+def _det_digest(kind, rep):
+    """Event-log digest used by the determinism self-check.  A run in which the
+    engine had to take the baton from a caller blocked on a real lock (possible
+    only against a valida that takes locks; wall-clock based, see
+    engine._wait_for_run) is not expected to repeat exactly and says so."""
+    if kind != "ok":
+        return (kind, rep)
+    if rep.stats.get("lock_stall_recoveries"):
+        return "lock-stall (not deterministic by construction)"
+    return rep.event_digest
 
 
 def _jsonable(x):
@@ -262,7 +274,8 @@ def print_digests(pid, verif_seed, n):
     out = []
     for i in range(n):
         kind, rep = run_one(prop, run_seed(verif_seed, i))
-        out.append([i, rep.event_digest if kind == "ok" else ("discard" if kind == "discard" else "harness")])
+        d = _det_digest(kind, rep)
+        out.append([i, d if isinstance(d, str) else ("discard" if kind == "discard" else "harness")])
     print("DIGESTS " + json.dumps(out))
     return 0
 
